@@ -288,7 +288,8 @@ fn run_e2e(
     // one resolution in six hands the real instance to the resolver without the recording wrapper
     // (which only forwards the trait methods it knows): the round-level oracles are silent then, the
     // outcome-level ones (crash, decode, well-formedness, balance, echo) judge as usual
-    let plain = comp.fail_compile_at.is_none() && comp.fail_op_at.is_none() && w.lock().unwrap().tape.chance(1, 6);
+    // (not under an unbounded round cap: only the wrapper can stop a loop that never ends)
+    let plain = comp.fail_compile_at.is_none() && comp.fail_op_at.is_none() && max_rounds < (1usize << 32) && w.lock().unwrap().tape.chance(1, 6);
     let res = if plain {
         let (outcome, polls) = resolve_plain(w, tir_tx, args, &mut comp.inner, max_rounds, cancel_after);
         comp.overrun = false;
@@ -311,7 +312,7 @@ fn run_e2e(
         rep.violate(
             "C14",
             "P3-hang",
-            "resolve_tx-runs-past-its-round-cap",
+            if max_rounds >= (1usize << 32) { "no-fixed-point-under-an-unbounded-round-cap" } else { "resolve_tx-runs-past-its-round-cap" },
             format!("{ctx}: resolve_tx asked for compile round {} although max_optimize_rounds = {max_rounds} allows at most {}", comp.compiles, max_rounds.max(3).saturating_add(2)),
         );
     }
@@ -1067,7 +1068,12 @@ fn inner_examples(world_no: u64, mut t: Tape, rep: &mut WorldReport) {
         let res = resolve_once(&w, &tx0, &args, &mut comp, max_rounds, cancel_after);
         let ctx = format!("`{name}`/{txname}, resolution {ri}");
         if comp.overrun {
-            rep.violate("C14", "P3-hang", "resolve_tx-runs-past-its-round-cap", format!("{ctx}: resolve_tx ran past its round cap"));
+            rep.violate(
+                "C14",
+                "P3-hang",
+                if max_rounds >= (1usize << 32) { "no-fixed-point-under-an-unbounded-round-cap" } else { "resolve_tx-runs-past-its-round-cap" },
+                format!("{ctx}: resolve_tx ran past its round cap"),
+            );
         }
         match &res.outcome {
             Outcome::Panic(p) => panic_violation(rep, p, &ctx),
